@@ -175,6 +175,8 @@ def main() -> int:
             allk = list(range(1, len(pcat) + 1))
             for name, depth in (("refsweep", 1), ("refpairs", 2)):
                 sts, acts, _r = c09.explore(work, name, depth, 1 if depth == 1 else 2, allk)
+                if depth == 1:
+                    sweep = (sts, acts)
                 for i, s_ in enumerate(sts):
                     sc = [a for a in c09.scenario(acts, s_) if a["op"] != "SaveReopen"]
                     # every single assignment (accepted or refused); pairs: a second assignment to the SAME property after an accepted
@@ -184,6 +186,19 @@ def main() -> int:
                     kn = knames[s_["k"] - 1]
                     K = PD.RT["kinds"][kn]
                     rjobs.append(("%s:%d" % (name, i), kn, K["deck"], K["path"], sc))
+            # the same single assignments on the objects of a deck with charts of types the library cannot generate (c:bar3DChart,
+            # c:line3DChart, c:pie3DChart: whatever of them the working tree lets the API reach)
+            from mbt.drive import readonly as RO
+            fdeck = RO.foreign_charts_deck(os.path.join(work, "gen"))
+            sts, acts = sweep
+            fobjs = [o for o in PD.corpus_objects(fdeck) if o[0] in knames and o[0] not in ("Presentation", "Slide", "SlideLayout", "LayoutPlaceholder")]
+            nf0 = len(rjobs)
+            for oi, (kind, deck, path) in enumerate(fobjs):
+                for i, s_ in enumerate(sts):
+                    if knames[s_["k"] - 1] == kind:
+                        sc = [a for a in c09.scenario(acts, s_) if a["op"] != "SaveReopen"]
+                        rjobs.append(("refforeign:%d:%d" % (oi, i), kind, deck, path, sc))
+            per["foreign_chart_objects"] = {"objects": len(fobjs), "kinds": sorted({o[0] for o in fobjs}), "assignments": len(rjobs) - nf0}
         rtraces = E.pmap(PD.run_monitored, rjobs, procs=16, chunk=16)
         kept = [(j, t) for j, t in zip(rjobs, rtraces) if t is not None]
         nref = sum(1 for _, t in kept if t["steps"][0]["op"] == "reject.attr")
